@@ -173,10 +173,8 @@ func verifC09ReadStream(maxSize int, src *verifSrc, raw bool, timeout time.Durat
 	if limit < 4 {
 		limit = 4
 	}
-	if src.maxReq > limit {
-		return vErr("read-buffer-larger-than-limit")
-	}
-	return vL(vL(msgs...), final)
+	// third component: every buffer handed to Read stayed within max(4, limit)  (= C09_Model.bufs_within)
+	return vL(vL(msgs...), final, vBool(src.maxReq <= limit))
 }
 
 // (max data sched eager tail)
